@@ -44,3 +44,6 @@ Check DEC_C13_qty_div_rate : forall (TQ : QFull DEC) (PQ : QBase DEC), QLaws PQ 
   tmpl_Div_Qty_Rate TQ PQ q r = Ok y ->
   q_unit PQ y = rt_per_unit r /\ dval (rt_term_amount r) <> 0 /\
   Rabs (dval (q_amount PQ y) - dval (rt_per_unit_multiple r) * (dval x1 / dval (rt_term_amount r))) <= half_ulp18 * (Rabs (dval (rt_per_unit_multiple r)) + 1).
+Check DEC_C13_ratio_same_unit : forall (S : QBase DEC), QLaws S -> forall (q : Qt S) (u : nat),
+  In u (u_iter S) -> q_unit S q = u ->
+  exists x1, HasRefUnit_div S q (q_new S (a_one DEC) u) = Ok x1 /\ dval x1 = dval (q_amount S q).
